@@ -6,6 +6,9 @@ import (
 	"crypto/sha256"
 	"encoding/hex"
 	"fmt"
+	"io"
+	"os"
+	"path/filepath"
 	"sort"
 	"strings"
 	"sync"
@@ -15,35 +18,111 @@ import (
 	"perkeep.org/pkg/blob"
 	"perkeep.org/pkg/blobserver"
 	"perkeep.org/pkg/blobserver/blobpacked"
+	"perkeep.org/pkg/blobserver/localdisk"
 	"perkeep.org/pkg/blobserver/memory"
 	"perkeep.org/pkg/sorted"
+	_ "perkeep.org/pkg/sorted/leveldb"
 
+	"verif.local/harness/ev"
 	"verif.local/harness/inject"
 	"verif.local/harness/sto"
 )
 
 // lower is the durable state of one blobpacked store: the three harness-owned layers.
+// kind "" = perkeep's memory blob stores and memory KV; "disk" = two localdisk stores and a
+// leveldb file under one scratch directory.
 type lower struct {
-	small *memory.Storage
-	large *memory.Storage
+	kind  string
+	small blobserver.Storage
+	large blobserver.Storage
 	meta  sorted.KeyValue
+	dir   string
 }
 
-func newLower() *lower {
-	return &lower{small: &memory.Storage{}, large: &memory.Storage{}, meta: sorted.NewMemoryKeyValue()}
+func newLower(kind string) (*lower, error) {
+	switch kind {
+	case "":
+		return &lower{small: &memory.Storage{}, large: &memory.Storage{}, meta: sorted.NewMemoryKeyValue()}, nil
+	case "disk":
+		lw := &lower{kind: kind, dir: ev.Scratch("c04-lower")}
+		var err error
+		fail := func(err error) (*lower, error) {
+			os.RemoveAll(lw.dir)
+			return nil, err
+		}
+		for _, d := range []string{"small", "large"} {
+			if err := os.Mkdir(filepath.Join(lw.dir, d), 0o700); err != nil {
+				return fail(err)
+			}
+		}
+		if lw.small, err = localdisk.New(filepath.Join(lw.dir, "small")); err != nil {
+			return fail(err)
+		}
+		if lw.large, err = localdisk.New(filepath.Join(lw.dir, "large")); err != nil {
+			return fail(err)
+		}
+		if lw.meta, err = sorted.NewKeyValue(jsonconfig.Obj{"type": "leveldb", "file": filepath.Join(lw.dir, "meta.leveldb")}); err != nil {
+			return fail(err)
+		}
+		return lw, nil
+	}
+	return nil, fmt.Errorf("unknown lower kind %q", kind)
 }
 
 // release drops the blob bytes.  perkeep keeps every storage that ever received a blob in a
 // process-global hub table (blobserver.GetHub), so the shells of finished incarnations stay
 // reachable; emptied, they are small.
 func (lw *lower) release() {
+	if lw.kind == "disk" {
+		lw.meta.Close()
+		os.RemoveAll(lw.dir)
+		return
+	}
 	ctx := context.Background()
-	lw.small.RemoveBlobs(ctx, refsOf(lw.small))
-	lw.large.RemoveBlobs(ctx, refsOf(lw.large))
+	lw.small.RemoveBlobs(ctx, lw.smallRefs())
+	lw.large.RemoveBlobs(ctx, lw.largeRefs())
 	if w, ok := lw.meta.(sorted.Wiper); ok {
 		w.Wipe()
 	}
 }
+
+func refsOfStore(st blobserver.Storage) []blob.Ref {
+	if ms, ok := st.(*memory.Storage); ok {
+		return refsOf(ms)
+	}
+	var out []blob.Ref
+	err := blobserver.EnumerateAll(context.Background(), st, func(sb blob.SizedRef) error {
+		out = append(out, sb.Ref)
+		return nil
+	})
+	if err != nil {
+		panic(fmt.Sprintf("harness: enumerating a lower store: %v", err))
+	}
+	sort.Slice(out, func(i, j int) bool { return out[i].String() < out[j].String() })
+	return out
+}
+
+func dataOfStore(st blobserver.Storage, br blob.Ref) ([]byte, bool) {
+	if ms, ok := st.(*memory.Storage); ok {
+		c, ok := ms.BlobContents(br)
+		return []byte(c), ok
+	}
+	rc, _, err := st.Fetch(context.Background(), br)
+	if err != nil {
+		return nil, false
+	}
+	defer rc.Close()
+	d, err := io.ReadAll(rc)
+	if err != nil {
+		return nil, false
+	}
+	return d, true
+}
+
+func (lw *lower) smallRefs() []blob.Ref { return refsOfStore(lw.small) }
+func (lw *lower) largeRefs() []blob.Ref { return refsOfStore(lw.large) }
+func (lw *lower) smallData(br blob.Ref) ([]byte, bool) { return dataOfStore(lw.small, br) }
+func (lw *lower) largeData(br blob.Ref) ([]byte, bool) { return dataOfStore(lw.large, br) }
 
 // snapshot is an immutable copy of a durable state.  Blob bytes are interned (loose blobs
 // are the universe's own slices, zips are kept once per case).
@@ -93,21 +172,21 @@ func refsOf(ms *memory.Storage) []blob.Ref {
 // universe (a lower store never does that; it would invalidate every later comparison).
 func (lw *lower) snap(w *world, zp *zipPool) (*snapshot, error) {
 	sn := &snapshot{}
-	for _, br := range refsOf(lw.small) {
+	for _, br := range lw.smallRefs() {
 		i, ok := w.byRef[br]
 		if !ok {
 			return nil, fmt.Errorf("small holds %v which no client uploaded", br)
 		}
-		c, _ := lw.small.BlobContents(br)
-		if c != string(w.Universe[i].Data) {
+		c, _ := lw.smallData(br)
+		if !bytes.Equal(c, w.Universe[i].Data) {
 			return nil, fmt.Errorf("small holds %v with foreign bytes", br)
 		}
 		sn.Small = append(sn.Small, br)
 	}
-	for _, br := range refsOf(lw.large) {
+	for _, br := range lw.largeRefs() {
 		zp.intern(br, func() []byte {
-			c, _ := lw.large.BlobContents(br)
-			return []byte(c)
+			c, _ := lw.largeData(br)
+			return c
 		})
 		sn.Large = append(sn.Large, br)
 	}
@@ -138,21 +217,27 @@ func (lw *lower) snap(w *world, zp *zipPool) (*snapshot, error) {
 
 // materialise builds fresh lower layers holding the snapshot.
 func (sn *snapshot) materialise(w *world, zp *zipPool, wipeMeta bool) (*lower, error) {
-	lw := newLower()
+	lw, err := newLower(w.Spec.Lower)
+	if err != nil {
+		return nil, err
+	}
 	ctx := context.Background()
 	for _, br := range sn.Small {
 		if _, err := lw.small.ReceiveBlob(ctx, br, bytes.NewReader(w.Universe[w.byRef[br]].Data)); err != nil {
+			lw.release()
 			return nil, err
 		}
 	}
 	for _, br := range sn.Large {
 		if _, err := lw.large.ReceiveBlob(ctx, br, bytes.NewReader(zp.get(br))); err != nil {
+			lw.release()
 			return nil, err
 		}
 	}
 	if !wipeMeta {
 		for _, kv := range sn.Meta {
 			if err := lw.meta.Set(kv[0], kv[1]); err != nil {
+				lw.release()
 				return nil, err
 			}
 		}
